@@ -244,6 +244,8 @@ func runC01(r *Run) {
 			set   int
 			doSet bool
 			dead  bool // the caller's context is already cancelled
+			// the caller releases whatever token TryAcquire returned, also a refused one (strategy used directly)
+			releaseRefused bool
 		}
 		var rds []rd
 		for k := 0; k < rounds; k++ {
@@ -253,6 +255,7 @@ func runC01(r *Run) {
 				x.set = []int{1, 2, 3, 0, -2, 5}[t.Intn(6, "setv")]
 			}
 			x.dead = t.Chance(10, "abandoned-context")
+			x.releaseRefused = mode == 3 && t.Chance(40, "release-refused-token")
 			rds = append(rds, x)
 		}
 		tasks = append(tasks, s.Go("caller", func(tk *Task) {
@@ -280,6 +283,9 @@ func runC01(r *Run) {
 					tok, ok = rec.TryAcquire(tk.Ctx)
 					if ok != tok.IsAcquired() {
 						s.Fail("listener-ok-mismatch", "precise", "TryAcquire ok=%v but token.IsAcquired=%v", ok, tok.IsAcquired())
+					}
+					if !ok && x.releaseRefused {
+						tok.Release() // `defer token.Release()` right after TryAcquire: releasing a token that was not acquired frees nothing
 					}
 				}
 				if ok {
